@@ -2,6 +2,7 @@
 import DSModel.Util
 import DSModel.Murmur3
 import DSModel.Wire.Theta
+import DSModel.Wire.ThetaV4IR
 namespace DS.Wire.Theta
 open DS DS.Wire
 
@@ -51,7 +52,14 @@ def imgLine (c : Consts) (kind : String) (seed : Nat) (b : Bytes) : String :=
               else encode c s
     let sz := if kind == "theta_v4" then serializedSizeCompressed s else if sv == 1 || sv == 2 then re.length else serializedSize s
     let consumed := b.length - rest.length
-    s!"{project s} | reenc={boolStr (re == b.take consumed)} size={sz} consumed={consumed} minlen={minAccepted rd b} wf={boolStr (decide (WF s))}"
+    -- compressed images: the same bytes through the block routines translated from bit_packing.hpp (writer and reader)
+    let ir := if sv == c.serVer4 then
+        encodeV4IR c s == b.take consumed &&
+        (match decodeV4IR (expSeedHash seed) (b.getD 0 0).toNat (b.drop 3) with
+         | some (s2, _) => s2.entries == s.entries
+         | none => false)
+      else true
+    s!"{project s} | reenc={boolStr (re == b.take consumed)} size={sz} consumed={consumed} minlen={minAccepted rd b} wf={boolStr (decide (WF s))} ir={boolStr ir}"
   | none => "reject"
 
 /-- `ENC <kind> <seed> T <content>` : legacy encoders -/
